@@ -318,9 +318,8 @@ PPL::Polyhedron::relation_with(const Congruence& cg) const {
       && Poly_Con_Relation::is_included()
       && Poly_Con_Relation::is_disjoint();
   }
-  // Build the equality corresponding to the congruence (ignoring the modulus).
+  // The expression of the congruence (the modulus is dealt with below).
   Linear_Expression expr(cg.expression());
-  const Constraint c(expr == 0);
 
   // The polyhedron is non-empty so that there exists a point.
   // For an arbitrary generator point, compute the scalar product with
@@ -331,7 +330,9 @@ PPL::Polyhedron::relation_with(const Congruence& cg) const {
   for (Generator_System::const_iterator gs_i = gen_sys.begin(),
          gs_end = gen_sys.end(); gs_i != gs_end; ++gs_i) {
     if (gs_i->is_point()) {
-      Scalar_Products::assign(sp_point, c, *gs_i);
+      // Note: going through the constraint `expr == 0' would be wrong,
+      // as its sign normalization may negate the expression.
+      Scalar_Products::assign(sp_point, expr, gs_i->expr);
       // The scalar product is the value of `expr' at the point multiplied
       // by the divisor of the point: scale expression and modulus likewise.
       const Coefficient& divisor = gs_i->divisor();
